@@ -78,9 +78,11 @@ class AbsPDF:
     @contextlib.contextmanager
     def temp_params(self, var):
         params = self.get_params()
-        self.set_params(var)
-        yield var
-        self.set_params(params)
+        try:
+            self.set_params(var)
+            yield var
+        finally:
+            self.set_params(params)
 
     @contextlib.contextmanager
     def mask_params(self, var):
@@ -157,11 +159,13 @@ class BaseAmplitudeModel(AbsPDF):
             combine = [[i] for i in range(len(self.decay_group.chains))]
         o_used_chains = self.decay_group.chains_idx
         weights = []
-        for i in combine:
-            self.decay_group.set_used_chains(i)
-            weight = self.pdf(data)
-            weights.append(weight)
-        self.decay_group.set_used_chains(o_used_chains)
+        try:
+            for i in combine:
+                self.decay_group.set_used_chains(i)
+                weight = self.pdf(data)
+                weights.append(weight)
+        finally:
+            self.decay_group.set_used_chains(o_used_chains)
         return weights
 
     def partial_weight_interference(self, data):
@@ -189,11 +193,13 @@ class BaseAmplitudeModel(AbsPDF):
             for j in i:
                 mask_part.append(j)
         old_mask = [getattr(i, "mask_factor", False) for i in mask_part]
-        for i in mask_part:
-            i.mask_factor = True
-        yield
-        for i, j in zip(mask_part, old_mask):
-            i.mask_factor = j
+        try:
+            for i in mask_part:
+                i.mask_factor = True
+            yield
+        finally:
+            for i, j in zip(mask_part, old_mask):
+                i.mask_factor = j
 
 
 @register_amp_model("default")
@@ -262,10 +268,12 @@ class CachedShapeAmplitudeModel(BaseAmplitudeModel):
         used_chains_idx = [
             i for i in old_chains_idx if i not in cached_shape_idx
         ]
-        self.decay_group.set_used_chains(used_chains_idx)
-        pv = build_params_vector(self.decay_group, data)
-        partial_cached_data = [cached_data[i] for i in used_chains_idx]
-        self.decay_group.set_used_chains(old_chains_idx)
+        try:
+            self.decay_group.set_used_chains(used_chains_idx)
+            pv = build_params_vector(self.decay_group, data)
+            partial_cached_data = [cached_data[i] for i in used_chains_idx]
+        finally:
+            self.decay_group.set_used_chains(old_chains_idx)
         ret = []
 
         for idx, (i, j) in enumerate(zip(pv, partial_cached_data)):
